@@ -1103,3 +1103,39 @@ package genql
 //@   frame[C09,C13]
 //@   loop 0 invariant cut-points-in-range[C09]: 0 <= start && start <= i && i <= len(selector)
 //@   ensures at-least-the-selector-itself[C09]: len(result) >= 1
+
+// C04/C13: the rows a PARALLEL join worker contributes are put into the shared result under the workers' mutex - the
+// append and every write into the storage it reserved (the answer does not depend on thread scheduling)
+//@ func (*Join).ParallelJoinFunc$1
+//@   locks[C04]
+//@ func (*Join).ParallelHashJoinFunc$1
+//@   locks[C04]
+
+// C08/C09: `fn=>rest` is split at the first arrow only: the `=>` of a `[keep=>...]` step further on belongs to the path
+//@ func ParseSelector
+//@   at-call SplitN assert the-function-is-split-off-at-the-first-arrow-only[C08,C09]: arg0 == selector && arg1 == "=>" && arg2 == 2
+
+// C18: CHANGETYPE. The string form of a value is what %v prints of it (the form ToFloat64 reads back: the round trip of
+// a double rests on the two being inverse, which is the trusted summary of ToFloat64); the other conversions are handed
+// the value itself
+//@ func ChangeTypeFunc
+//@   requires json0: len(args) > 0 ==> spec.JSONValue(args[0])
+//@   requires json1: len(args) > 1 ==> spec.JSONValue(args[1])
+//@   safety[C18]
+//@   errors[C18]
+//@   ensures arity[C18]: len(args) != 2 ==> err != nil
+//@   ensures null[C18]: len(args) == 2 && args[0] == nil ==> result == nil && err == nil
+//@   at-call Sprintf:"%v" assert the-string-form-is-the-printed-value[C18]: arg0 == "%v" && varargs == 1 && vararg0 == args[0]
+//@   at-call ToFloat64 assert the-double-is-read-from-the-value-itself[C18]: arg0 == args[0]
+//@   at-call ToInt assert the-integer-is-read-from-the-value-itself[C18]: arg0 == args[0]
+
+// C18: a NULL algorithm, base or data is an error, not a nil dereference
+//@ func HashFunc
+//@   safety[C18]
+//@   ensures arity[C18]: len(args) != 2 ==> err != nil
+//@ func EncodeFunc
+//@   safety[C18]
+//@   ensures arity[C18]: len(args) != 2 ==> err != nil
+//@ func DecodeFunc
+//@   safety[C18]
+//@   ensures arity[C18]: len(args) != 2 ==> err != nil
